@@ -93,6 +93,11 @@ ASSUME \A a \in {-70000, -65537, -1, 0, 1, 255, 256, 257, 32767, 32768, 65535, 6
        \A b \in {-3, -1, 0, 1, 2, 3, 255, 256, 4097, 21000} :
           /\ RoundMul(a, b) = (a * b + 32768) \div One
           /\ RoundMul(b, a) = (a * b + 32768) \div One
+ASSUME /\ ~Unrepresentable("IMPULSE", "BOX", 2147418112) /\ Unrepresentable("IMPULSE", "BOX", 2147418113)
+       /\ ~Unrepresentable("BOX", "BOX", 2147352576) /\ Unrepresentable("BOX", "BOX", 2147352577)
+       /\ ~Unrepresentable("IMPULSE", "LANCZOS3_STRETCHED", 268427264) /\ Unrepresentable("IMPULSE", "LANCZOS3_STRETCHED", 268427265)
+       /\ ~Unrepresentable("LANCZOS3", "IMPULSE", 2147483647) /\ ~Unrepresentable("GAUSSIAN", "CUBIC", 65536)
+       /\ Unrepresentable("LINEAR", "LANCZOS3_STRETCHED", 2147483647)
 ASSUME RoundMul(65536, 65536) = 65536 /\ RoundMul(65535, 65535) = 65534 /\ RoundMul(32768, 32768) = 16384
        /\ RoundMul(-65536, 65536) = -65536 /\ RoundMul(46341, 46341) = 32768
 =============================================================================
